@@ -159,6 +159,8 @@ class SimStdout:
     def __init__(self, world, cfg):
         self.world = world
         self.kind = cfg.get("kind", "memory")
+        if self.kind in ("ascii", "cp1252"):
+            self.encoding = self.kind
         self.chunks = []
         self.writes = 0
         self.closed = False
@@ -171,6 +173,9 @@ class SimStdout:
             w.clock.advance(0.25)
         else:
             w.clock.advance(LATENCY["stdout"])
+        if self.kind in ("ascii", "cp1252"):
+            # a console / log file whose encoding cannot represent everything (PYTHONIOENCODING=ascii, a cp1252 console)
+            s.encode(self.kind)  # raises UnicodeEncodeError exactly like a real TextIOWrapper would
         if f is not None:
             w.fire(f)
             k = f["kind"]
@@ -674,6 +679,9 @@ class World:
             warnings.filterwarnings("ignore", category=SparseEfficiencyWarning)
         except Exception:  # pragma: no cover
             pass
+        if self.config.get("warnings", {}).get("kind") == "error_all":
+            # the host runs with -W error (a test runner with filterwarnings = error): every warning is an exception
+            warnings.simplefilter("error")
         if self.config.get("warnings", {}).get("kind") == "error_sparse":
             # the host (e.g. a test runner with filterwarnings=error) turned SciPy's efficiency warnings into errors
             # *after* graphslam was imported, so its import-time "ignore" filter no longer wins
